@@ -38,7 +38,7 @@ func init() {
 			"the harness update mapper copies the caller's shared fields onto the loaded child entity (what an application mapper must do)"},
 		Plan: func(tier core.Tier, seed int64) int {
 			if tier == core.Thorough {
-				return 18000
+				return 60000
 			}
 			return 600
 		},
